@@ -36,7 +36,7 @@ func (gr *genRun) checkMakeWrappers(rf *RecFacts) {
 	if rf.GF.Opts.Private {
 		pfx = "make"
 	}
-	for _, w := range []struct{ name, call string }{{pfx + rf.GoName, "v.DecodeBebop(r)"}, {pfx + rf.GoName + "FromBytes", "v.UnmarshalBebop(buf)"}} {
+	for _, w := range []struct{ name, call string }{{pfx + rf.GoName, "DecodeBebop"}, {pfx + rf.GoName + "FromBytes", "UnmarshalBebop"}} {
 		fd := rf.GF.Funcs[w.name]
 		pos := "gen.go (writeMake/writeMakeFromBytes)"
 		key := fmt.Sprintf("%s wrapper runs the decoder %s", strings.TrimPrefix(strings.TrimPrefix(w.name, pfx+rf.GoName), "x"), frameKey(rf))
@@ -50,7 +50,16 @@ func (gr *genRun) checkMakeWrappers(rf *RecFacts) {
 			continue
 		}
 		src := strings.Join(strings.Fields(rf.GF.Snippet(fd.Body)), " ")
-		decodes := strings.Contains(src, w.call)
+		// the wrapper calls the decoding method on the value it returns, with its own parameter
+		decodes := false
+		ast.Inspect(fd.Body, func(n ast.Node) bool {
+			if call, ok := n.(*ast.CallExpr); ok && len(call.Args) == 1 {
+				if sel, ok := call.Fun.(*ast.SelectorExpr); ok && sel.Sel.Name == w.call {
+					decodes = true
+				}
+			}
+			return true
+		})
 		gr.c.Check("R5", key, pos, decodes || noFootprint,
 			"the wrapper returns a zero value without running the decoder although the record has a wire footprint (length prefix/terminator): "+src+" — "+rf.where(fd.Pos()))
 	}
